@@ -11,7 +11,10 @@ from implutil import exc_name
 RULE = ('layout case = (poset: family of subsets of a k-set under inclusion in a given element order, or the concept '
         'lattice of a boolean table; layout in {fcart(c,dpth), multipartite}); the IMPLEMENTATION\'s calc_levels output '
         'and coordinates (exact rationals of the floats) are judged by the Lean checker holdsLayout against a cover '
-        'relation computed independently by the harness, and compared with the Lean models of calc_levels/fcart_layout. '
+        'relation computed independently by the harness, and compared with the Lean models of calc_levels/fcart_layout/'
+        'multipartite_layout (the latter including networkx\'s placement and rescaling in exact rationals; the member order '
+        'inside each layer - the iteration order of a Python set - is read off the implementation\'s output by sorting the '
+        'layer\'s nodes by their x coordinate and handed to the model; coordinates compared up to 1e-9 absolute). '
         'mover case = (orientation, position dict on a dyadic grid of <=3 levels x <=3 peers, history of swap/shift/'
         'jitter/place operations, insertion order of the dictionary keys: ascending / reversed / level by level / '
         'scrambled); Mover(pos).pos must equal the loaded dictionary; the WHOLE history is first judged by the geometric '
@@ -38,7 +41,10 @@ EXHAUSTIVE = {
 EXPLANATION = ('layouts are relational (exact coordinates are not pinned): the verified checker Fca.C19.holdsLayout_sound '
                'judges the implementation\'s own output (fcart and multipartite); calc_levels is pinned (levels_longest_chain) '
                'and compared with the model; the fcart model is proved to satisfy the property (fcart_layout_ok) and is '
-               'compared with the implementation; the hypotheses WFP2 of those theorems (children = transpose of parents, '
+               'compared with the implementation; the multipartite model (fcapy wrapper + networkx multipartite_layout/'
+               'rescale_layout) is proved to satisfy the property for every iteration order of the layer sets '
+               '(multipartite_layout_exact) and is compared with the implementation on every multipartite case; '
+               'the hypotheses WFP2 of those theorems (children = transpose of parents, '
                'tops = parentless elements, cover relation of a strict order) are checked on every input; mover outputs are '
                'pinned and compared with the model after every operation (1e-9 relative tolerance; generators stay on '
                'dyadic grids so float arithmetic is exact) and judged by the step oracle')
@@ -48,7 +54,11 @@ ASSUMPTIONS = ['a re-load of positions into a used mover and a layout of a mutat
                'position dictionaries have keys 0..n-1 and pairwise distinct positions',
                'node arguments of mover operations are valid indexes; place_node only judged in the vertical orientation',
                'coordinates are finite floats; NaN/inf are out of scope']
-TRUSTED = ['networkx.multipartite_layout (not modelled: its output is judged by the verified checker only)',
+TRUSTED = ['networkx (multipartite_layout, rescale_layout, utils.groups, set_node_attributes/get_node_attributes): modelled '
+           'from its source, version 3.6.x, and compared on every run (every multipartite case: the implementation\'s '
+           'coordinates against the Lean model Fca.Layout.mpLayout, 1e-9 absolute; the property itself is still judged by '
+           'holdsLayout on the implementation\'s own output)',
+           'numpy float arithmetic of networkx\'s placement vs. the exact rationals of the model (compared up to 1e-9)',
            'float arithmetic of fcart_layout / Mover vs. exact rationals of the model (compared up to 1e-9; a near-tie of '
            'two fcart priorities is tolerated as a rounding artefact)',
            'harness-side cover relation (subset inclusion / extent inclusion) and the python step oracle for the mover',
@@ -59,6 +69,7 @@ TRUSTED = ['networkx.multipartite_layout (not modelled: its output is judged by 
 CHUNK = 400
 REQUESTS_NEED_IMPL = True
 TOL = 1e-9
+MP_TOL = 1e-9   # absolute: multipartite coordinates lie in [-1, 1]
 
 CS = (0.1, 0.5, 1.0)
 DPTHS = (1, 2, 3)
@@ -591,6 +602,9 @@ def impl_layout(c):
                 bad.append([d, [list(got[i]) if got and i in got else None for i in range(n)]])
         out['initpos_bad'] = bad
         out['key_order'] = [int(k) for k in pos]
+        if c['layout'] == 'multipartite':
+            import networkx
+            out['nx'] = str(networkx.__version__)
     except Exception as e:
         out['pos_err'] = exc_name(e)
     return out
@@ -691,6 +705,9 @@ def requests(c, io):
         if 'levels' in io and 'pos' in io and len(io['pos']) == len(io['levels']) == io['n']:
             extra['idon'] = impl_ranks(io)
         rs.append(dict(op='C19.fcart', c=fr(c['c']), dpth=c['dpth'], cover=io['cover'], **extra, **base))
+    elif c['layout'] == 'multipartite' and 'levels' in io and 'pos' in io \
+            and len(io['pos']) == len(io['levels']) == io['n'] and io.get('keys') == list(range(io['n'])):
+        rs.append(dict(op='C19.mpLayout', cover=io['cover'], orders=impl_layer_orders(io), **base))
     return rs
 
 
@@ -705,6 +722,14 @@ def impl_ranks(io):
         for r, i in enumerate(row):
             ranks[i] = r
     return ranks
+
+
+def impl_layer_orders(io):
+    """member order of every layer as networkx iterated the layer's set, read off the implementation's output: the
+    slot of a node inside its layer is the rank of its x coordinate (ties - never produced by a correct run - by id)"""
+    lv = io['levels']
+    return [sorted((i for i in range(len(lv)) if lv[i] == l), key=lambda i: (fl(io['pos'][i][0]), i))
+            for l in sorted(set(lv))]
 
 
 def admissible_order(io, fc):
@@ -733,6 +758,7 @@ def judge_layout(c, io, rep):
         return dict(ok=False, kind='correspondence', detail=f'poset interface raised {io["err"]}')
     lev, chk = rep[0], rep[1]
     fc = rep[2] if c['layout'] == 'fcart' else None
+    mp = rep[2] if c['layout'] == 'multipartite' and len(rep) > 2 else None
     if io['n'] == 0:   # malformed: only the exception classes are compared
         ok = io.get('levels_err') == lev.get('err') and io.get('pos_err') == lev.get('err')
         return dict(ok=ok, kind='correspondence', detail=f'empty poset: impl {io.get("levels_err")}/{io.get("pos_err")} model {lev}')
@@ -792,6 +818,23 @@ def judge_layout(c, io, rep):
             return dict(ok=False, kind='correspondence', part='fcart-pos',
                         detail=f'fcart positions differ from the model at {bad}: impl {[[fl(x), fl(y)] for x, y in io["pos"]]} '
                                f'model {[[fl(x), fl(y)] for x, y in fc["pos"]]}')
+    if mp is not None:
+        # the multipartite MODEL (fcapy wrapper + networkx placement, exact rationals) against the implementation
+        if 'err' in mp:
+            return dict(ok=False, kind='correspondence', part='mp-model', detail=f'model multipartite_layout raised {mp["err"]}')
+        if not mp['holds']:
+            return dict(ok=False, kind='harness', detail='the multipartite MODEL output is rejected by holdsLayout '
+                                                         '(contradicts multipartite_layout_exact)')
+        if mp['levels'] != io['levels'] or not mp['ord_ok']:
+            return dict(ok=False, kind='harness', detail=f'model layers {mp["layers"]} are not the layers read off the '
+                                                         f'implementation {impl_layer_orders(io)}')
+        bad = [i for i, (p, q) in enumerate(zip(io['pos'], mp['pos']))
+               if abs(fl(p[0]) - fl(q[0])) > MP_TOL or abs(fl(p[1]) - fl(q[1])) > MP_TOL]
+        if bad or len(mp['pos']) != len(io['pos']):
+            return dict(ok=False, kind='correspondence', part='mp-pos',
+                        detail=f'multipartite positions differ from the model (networkx {io.get("nx")}; model = 3.6.x source) '
+                               f'at nodes {bad}: impl {[[fl(x), fl(y)] for x, y in io["pos"]]} '
+                               f'model {[[fl(x), fl(y)] for x, y in mp["pos"]]} layers {mp["layers"]}')
     return dict(ok=True)
 
 
@@ -944,6 +987,10 @@ def branch(c, io, rep):
     out = [c['stream']]
     if c['kind'] == 'layout':
         out.append('layout:' + c['layout'])
+        if c['layout'] == 'multipartite' and len(rep) > 2 and 'pos' in rep[2]:
+            out.append('mp-model-compared:networkx-' + '.'.join(str(io.get('nx')).split('.')[:2]))
+            if any(o != sorted(o) for o in impl_layer_orders(io)):
+                out.append('mp-layer-order:not-ascending')
         if 'levels' in io:
             out.append(f'levels:{max(io["levels"]) + 1}' if io['levels'] else 'levels:0')
     else:
